@@ -1,4 +1,5 @@
 import EmmetProofs.ExtractConsistent
+import EmmetProofs.ExtractMore
 /-! # C11 — extract returns a result consistent with the line (all lines, all positions incl. out of range, all options) -/
 namespace EmmetProps
 open X
@@ -11,6 +12,19 @@ theorem C11_consistent (line : Str) (pos : Int) (o : Opts) (r : Result) (h : ext
     r.abbreviation = (line.take r.stop).drop r.location ∧
     (∀ x xs, r.abbreviation = x :: xs → isLeadOp x = false) :=
   X.extract_consistent line pos o r h
+
+/-- the end of a result is the look-ahead adjusted caret position: the position clamped to the line, moved across at most one
+quote and then closing brackets when look-ahead is on (`X.lookPos`, `X.offsetPast`) -/
+theorem C11_end (line : Str) (pos : Int) (o : Opts) (r : Result) (h : extract line pos o = some r) :
+    r.stop = lookPos line pos o := X.extract_stop line pos o r h
+
+/-- with a configured prefix: the prefix is the text found at `start`, and the abbreviation lies to its right -/
+theorem C11_prefix (line : Str) (pos : Int) (o : Opts) (r : Result) (h : extract line pos o = some r) (hp : o.pfx ≠ []) :
+    (line.drop r.start).take o.pfx.length = o.pfx ∧ r.start + o.pfx.length ≤ r.location := X.extract_prefix line pos o r h hp
+
+/-- non-vacuity for the prefix clause: `a <ul>li` with prefix `<` at its end -/
+example : (extract ("a <ul>li".toList.map Char.toNat) 8 { pfx := [60] }).map (fun r => (r.start, r.location)) = some (2, 3) := by
+  decide +kernel
 
 /-- non-vacuity: `<p>ul>li` at its end extracts `ul>li` at location 3 -/
 example : (extract ("<p>ul>li".toList.map Char.toNat) 8 {}).map (fun r => (r.abbreviation, r.location, r.stop))
